@@ -76,10 +76,19 @@ def normClassParam (p : Param) : Param :=
     default) is read differently from `None`/`NoneStr` by the AST emitters and is left outside -/
 def domAstParam (p : Param) : Bool := p.default != some (.str sNone)
 
+/-- `_set_name_and_type`: prose that starts with "(Optional)" or "Optional" marks the entry optional; a type
+    that is not already `Optional[...]` is wrapped (recorded finding: the declared type is not preserved) -/
+def optionalProse (p : Param) : Bool :=
+  match p.doc, p.typ with
+  | some d, some t =>
+    (startsWith d ['(', 'O', 'p', 't', 'i', 'o', 'n', 'a', 'l', ')'] || startsWith d ['O', 'p', 't', 'i', 'o', 'n', 'a', 'l'])
+      && !startsWith t pOptional
+  | _, _ => false
+
 /-- inputs on which the round trips are this regular (everything else is a recorded finding or
     outside the property's domain) -/
 def domParamCommon (p : Param) : Bool :=
-  p.typ.isSome && p.doc.isSome &&
+  p.typ.isSome && p.doc.isSome && !optionalProse p &&
   (match p.default with | some v => !isCodeVal v | none => true)
 
 def domClassParam (p : Param) : Bool :=
